@@ -21,7 +21,8 @@ THE PASS (part of the trusted base; it is deliberately small, intraprocedural an
      d. a keyword argument `out=T` of any call                -> op `out=T`.
    Not tensor operations and skipped: subscript (aug)assignments whose index is a string literal
    (`kwargs['y_pred'] = ...`, `split_tracker['count'] += 1`), targets all of whose bindings are dict/list
-   displays or `dict()`/`list()` calls, and `name op= <int literal or list>` (counters, list extension).
+   displays or `dict()`/`list()` calls, `name op= <list>` (list extension) and `name op= <number>` when `name` is a
+   counter (not a parameter; every binding of it is a numeric literal or a `range` loop variable).
 
 3. Provenance of an expression, `prov(e)` in {fresh, mayAlias}:
      * a local variable is `fresh` iff EVERY binding of it in the function (assignment, tuple-unpacking
@@ -466,7 +467,7 @@ class Fn:
                         out.append((n.lineno, n.col_offset, f'{U(t.value)}[...] {op}=', self._site_prov(self.site_prov(n, t.value))))
                 elif isinstance(t, ast.Name):
                     v = n.value
-                    if isinstance(v, ast.Constant) and isinstance(v.value, int):
+                    if isinstance(v, ast.Constant) and isinstance(v.value, (int, float)) and self._is_counter(t.id):
                         continue
                     if isinstance(v, (ast.List, ast.ListComp)):
                         continue
@@ -477,6 +478,20 @@ class Fn:
                     out.append((n.lineno, n.col_offset, f'{U(t)} {op}=', 'mayAlias'))
         out.sort()
         return [(op, p) for _, _, op, p in out]
+
+    def _is_counter(self, name):
+        """`i = 0 ... i += 1`: a local (or enclosing-function local) all of whose bindings are numeric literals / range loops."""
+        f = self
+        while f is not None:
+            if name in f.params:
+                return False
+            bs = f.bind.get(name)
+            if bs:
+                return all(b[0] == 'scalar' or (b[0] == 'expr' and isinstance(b[1], ast.Constant)
+                                                and isinstance(b[1].value, (int, float)) and not isinstance(b[1].value, bool))
+                           for b in bs)
+            f = f.parent
+        return False
 
     @staticmethod
     def _site_prov(p):
